@@ -20,6 +20,7 @@
 #include <functional>
 #include <map>
 #include <memory>
+#include <stdexcept>
 #include <string>
 #include <vector>
 
@@ -611,6 +612,8 @@ class Recorder final : public StepInterface
             }
             steps.push_back(r);
         }
+        if (tee)
+            tee->process_steps(st);
     }
     void process_steps(DeviceStepState) final {}
 
@@ -729,6 +732,9 @@ class Recorder final : public StepInterface
     Filters filters_;
     StepSelection selection_{StepSelection::all()};
     std::vector<StepRec> steps;
+    // optional second consumer of the SAME step state (StepCollector refuses to mix callbacks
+    // with and without detectors): called after the records of this call were stored
+    std::shared_ptr<StepInterface> tee;
     uint64_t stale_detector_slots{0};  // vacant slots that still carry a detector id
     std::string stale_detector_first;
     unsigned const* call_stamp{nullptr};
@@ -821,6 +827,43 @@ class ProbeAction final : public CoreStepActionInterface, public ConcreteAction
 };
 
 //---------------------------------------------------------------------------//
+// Thrower: a user action that aborts the step with an exception when armed (C06: "aborted
+// event").  Disarmed it does nothing.  `countdown` counts invocations of the armed order.
+//---------------------------------------------------------------------------//
+struct ThrowCtl
+{
+    int armed_order{-1};  // StepActionOrder as int; -1 = disarmed
+    unsigned countdown{0};  // throws at the countdown-th invocation of the armed action
+    unsigned long long fired{0};
+};
+
+class ThrowAction final : public CoreStepActionInterface, public ConcreteAction
+{
+  public:
+    ThrowAction(ActionId id, StepActionOrder order, std::shared_ptr<ThrowCtl> ctl)
+        : ConcreteAction(id, "verif-thrower-" + std::to_string(int(order)), "verif user action that may throw")
+        , order_(order)
+        , ctl_(std::move(ctl))
+    {
+    }
+    StepActionOrder order() const final { return order_; }
+    void step(CoreParams const&, CoreStateHost&) const final
+    {
+        if (ctl_->armed_order == int(order_) && ctl_->countdown > 0 && --ctl_->countdown == 0)
+        {
+            ctl_->armed_order = -1;
+            ++ctl_->fired;
+            throw std::runtime_error("verif: user action aborts the event");
+        }
+    }
+    void step(CoreParams const&, CoreStateDevice&) const final { CELER_NOT_CONFIGURED("device"); }
+
+  private:
+    StepActionOrder order_;
+    std::shared_ptr<ThrowCtl> ctl_;
+};
+
+//---------------------------------------------------------------------------//
 // Problem definition
 //---------------------------------------------------------------------------//
 enum class AlongStep
@@ -881,11 +924,16 @@ struct LoopConfig
     bool with_proton{false};
     bool bookkeeping{false};
     std::vector<StepActionOrder> probes;  // orders at which a ProbeAction is inserted
+    std::vector<StepActionOrder> throwers;  // orders at which a ThrowAction is inserted
     // scoring variants (C17)
     bool second_recorder{false};
     StepInterface::Filters recorder2_filters{};
     StepSelection recorder2_selection{StepSelection::all()};
     std::vector<std::string> calo_volumes;  // non-empty: a SimpleCalo over these volumes
+    // calo_tee: the SimpleCalo is not registered with the StepCollector itself but fed by the
+    // recorder (Recorder::tee), whose detector map is then the calorimeter's; calo_volumes
+    // {"*"} = every volume except the exterior, so that the recorder still sees every step
+    bool calo_tee{false};
     bool action_diagnostic{false};
     bool step_diagnostic{false};
     bool with_recorder{true};
@@ -907,6 +955,7 @@ struct LoopProblem
     std::shared_ptr<Recorder> recorder;
     std::shared_ptr<StepCollector> collector;
     std::shared_ptr<ProbeLog> probe_log;
+    std::shared_ptr<ThrowCtl> throw_ctl;
     std::shared_ptr<Recorder> recorder2;
     std::shared_ptr<SimpleCalo> calo;
     std::shared_ptr<ActionDiagnostic> action_diag;
@@ -1177,6 +1226,15 @@ inline std::unique_ptr<LoopProblem> make_loop_problem(LoopConfig const& cfg)
                 action_reg->insert(pa);
             }
         }
+        if (!cfg.throwers.empty())
+        {
+            P->throw_ctl = std::make_shared<ThrowCtl>();
+            for (auto ord : cfg.throwers)
+            {
+                action_reg->insert(
+                    std::make_shared<ThrowAction>(action_reg->next_id(), ord, P->throw_ctl));
+            }
+        }
         auto core = std::make_shared<CoreParams>(std::move(inp));
         P->core = core;
         {
@@ -1204,10 +1262,24 @@ inline std::unique_ptr<LoopProblem> make_loop_problem(LoopConfig const& cfg)
             if (!cfg.calo_volumes.empty())
             {
                 std::vector<Label> labels;
-                for (auto const& n : cfg.calo_volumes)
-                    labels.push_back(Label{n});
+                if (cfg.calo_volumes.size() == 1 && cfg.calo_volumes[0] == "*")
+                {
+                    auto const& gv = geo->volumes();
+                    for (auto vid : range(VolumeId{gv.size()}))
+                        if (gv.at(vid).name.find("EXTERIOR") == std::string::npos)
+                            labels.push_back(gv.at(vid));
+                }
+                else
+                    for (auto const& n : cfg.calo_volumes)
+                        labels.push_back(Label{n});
                 P->calo = std::make_shared<SimpleCalo>(labels, *geo, cfg.max_streams);
-                callbacks.push_back(P->calo);
+                if (cfg.calo_tee && P->recorder)
+                {
+                    P->recorder->tee = P->calo;
+                    P->recorder->filters_.detectors = P->calo->filters().detectors;
+                }
+                else
+                    callbacks.push_back(P->calo);
             }
             if (!callbacks.empty())
                 P->collector = StepCollector::make_and_insert(*core, std::move(callbacks));
